@@ -33,7 +33,7 @@ func guarded(what string, d time.Duration, f func() error) (err error) {
 				// keep the innermost frames of /repo only
 				var keep []string
 				for _, l := range strings.Split(st, "\n") {
-					if strings.Contains(l, "/repo/") {
+					if isCodeUnderTestFrame(l) {
 						keep = append(keep, strings.TrimSpace(l))
 					}
 					if len(keep) >= 4 {
@@ -53,7 +53,23 @@ func guarded(what string, d time.Duration, f func() error) (err error) {
 	}
 }
 
-const wd = 20 * time.Second
+// isCodeUnderTestFrame: a stack line "<dir>/<pkg>/file.go:N" of the packages
+// under test (wherever the source tree is checked out).
+func isCodeUnderTestFrame(l string) bool {
+	if !strings.Contains(l, ".go:") {
+		return false
+	}
+	for _, p := range []string{"/repo/", "/vng/", "/vector/", "/runtime/vcache/", "/runtime/vam/", "/zio/vngio/"} {
+		if strings.Contains(l, p) {
+			return true
+		}
+	}
+	return false
+}
+
+// generous: the machine may be heavily loaded; a real hang is reported once
+// per case (hangs are not shrunk and the worker is restarted afterwards)
+const wd = 90 * time.Second
 
 // writeVNG serialises vals with the real writer.
 func writeVNG(vals []zed.Value) (out []byte, err error) {
